@@ -35,7 +35,7 @@ func decodeOneRegisterAndOneExtendedWidthImmediate(instructionCode []byte, pc Pr
 
 // A.5.4
 func decodeTwoImmediates(instructionCode []byte, pc ProgramCounter, skipLength ProgramCounter) (uint64, uint64, error) {
-	lX := ProgramCounter(min(4, uint8(instructionCode[pc+1])))
+	lX := ProgramCounter(min(4, uint8(instructionCode[pc+1])%8))
 
 	decodedVX, err := utils.DeserializeFixedLength(instructionCode[pc+2:pc+2+lX], types.U64(lX))
 	if err != nil {
@@ -47,7 +47,7 @@ func decodeTwoImmediates(instructionCode []byte, pc ProgramCounter, skipLength P
 		return 0, 0, fmt.Errorf("opcosde %s(%d) at pc=%d signExtend lx raise error : %w", zeta[opcode(instructionCode[pc])], opcode(instructionCode[pc]), pc, err)
 	}
 
-	lY := min(4, max(0, skipLength-lX-1))
+	lY := ProgramCounter(min(4, max(0, int(skipLength)-int(lX)-1)))
 	decodedVy, err := utils.DeserializeFixedLength(instructionCode[pc+2+lX:pc+2+lX+lY], types.U64(lY))
 	if err != nil {
 		return 0, 0, fmt.Errorf("opcosde %s(%d) at pc=%d deserialization vy raise error : %w", zeta[opcode(instructionCode[pc])], opcode(instructionCode[pc]), pc, err)
@@ -77,7 +77,7 @@ func decodeOneOffset(instructionCode []byte, pc ProgramCounter, skipLength Progr
 // returns rA, vX
 func decodeOneRegisterAndOneImmediate(instructionCode []byte, pc ProgramCounter, skipLength ProgramCounter) (uint8, uint64, error) {
 	rA := min(12, instructionCode[pc+1]%16)
-	lX := min(4, max(0, skipLength-1))
+	lX := ProgramCounter(min(4, max(0, int(skipLength)-1)))
 
 	immediateData := instructionCode[pc+2 : pc+2+lX]
 	immediate, _, err := ReadUintSignExtended(immediateData, len(immediateData))
@@ -92,7 +92,7 @@ func decodeOneRegisterAndOneImmediate(instructionCode []byte, pc ProgramCounter,
 // A.5.7
 func decodeOneRegisterAndTwoImmediates(instructionCode []byte, pc ProgramCounter, skipLength ProgramCounter) (int8, uint64, uint64, error) {
 	rA := int8(min(12, instructionCode[pc+1]%16))
-	lX := min(4, ProgramCounter(uint8((instructionCode[pc+1] >> 4))))
+	lX := min(4, ProgramCounter(uint8((instructionCode[pc+1]>>4)%8)))
 	pcMargin := pc + 2 + lX
 	decodedVX, err := utils.DeserializeFixedLength(instructionCode[pc+2:pcMargin], types.U64(lX))
 	if err != nil {
@@ -103,7 +103,7 @@ func decodeOneRegisterAndTwoImmediates(instructionCode []byte, pc ProgramCounter
 		return 0, 0, 0, fmt.Errorf("opcode %s(%d) at pc=%d signExtend vx raise error : %w", zeta[opcode(instructionCode[pc])], opcode(instructionCode[pc]), pc, err)
 	}
 
-	lY := min(4, max(0, skipLength-lX-1))
+	lY := ProgramCounter(min(4, max(0, int(skipLength)-int(lX)-1)))
 	decodedVY, err := utils.DeserializeFixedLength(instructionCode[pcMargin:pcMargin+lY], types.U64(lY))
 	if err != nil {
 		return 0, 0, 0, fmt.Errorf("opcode %s(%d) at pc=%d deserialize vy raise error : %w", zeta[opcode(instructionCode[pc])], opcode(instructionCode[pc]), pc, err)
@@ -121,7 +121,7 @@ func decodeOneRegisterAndTwoImmediates(instructionCode []byte, pc ProgramCounter
 func decodeOneRegisterOneImmediateAndOneOffset(instructionCode []byte, pc ProgramCounter, skipLength ProgramCounter) (uint8, uint64, ProgramCounter, error) {
 	rA := min(12, instructionCode[pc+1]%16)
 	lX := ProgramCounter(min(4, (instructionCode[pc+1]>>4)%8))
-	lY := min(4, max(0, skipLength-lX-1))
+	lY := ProgramCounter(min(4, max(0, int(skipLength)-int(lX)-1)))
 
 	immediateData := instructionCode[pc+2 : pc+2+lX]
 	immediate, _, err := ReadUintSignExtended(immediateData, len(immediateData))
@@ -151,7 +151,7 @@ func decodeTwoRegisters(instructionCode []byte, pc ProgramCounter) (rD uint8, rA
 func decodeTwoRegistersAndOneImmediate(instructionCode []byte, pc ProgramCounter, skipLength ProgramCounter) (uint8, uint8, uint64, error) {
 	rA := min(12, instructionCode[pc+1]&15)
 	rB := min(12, instructionCode[pc+1]>>4)
-	lX := min(4, max(0, skipLength-1))
+	lX := ProgramCounter(min(4, max(0, int(skipLength)-1)))
 	decodedVX, err := utils.DeserializeFixedLength(instructionCode[pc+2:pc+2+lX], types.U64(lX))
 	if err != nil {
 		return 0, 0, 0, fmt.Errorf("opcode %s(%d) at pc=%d deserialization error : %w", zeta[opcode(instructionCode[pc])], opcode(instructionCode[pc]), pc, err)
@@ -169,7 +169,7 @@ func decodeTwoRegistersAndOneImmediate(instructionCode []byte, pc ProgramCounter
 func decodeTwoRegistersAndOneOffset(instructionCode []byte, pc ProgramCounter, skipLength ProgramCounter) (uint8, uint8, ProgramCounter, error) {
 	rA := min(12, instructionCode[pc+1]%16)
 	rB := min(12, instructionCode[pc+1]>>4)
-	lX := min(4, max(0, skipLength-1))
+	lX := ProgramCounter(min(4, max(0, int(skipLength)-1)))
 
 	offsetData := instructionCode[pc+2 : pc+2+lX]
 	offset, _, err := ReadIntFixed(offsetData, len(offsetData))
@@ -186,7 +186,7 @@ func decodeTwoRegistersAndTwoImmediates(instructionCode []byte, pc ProgramCounte
 	rA := min(12, instructionCode[pc+1]%16)
 	rB := min(12, instructionCode[pc+1]>>4)
 	lX := ProgramCounter(min(4, instructionCode[pc+2]%8))
-	lY := min(4, max(0, skipLength-lX-2))
+	lY := ProgramCounter(min(4, max(0, int(skipLength)-int(lX)-2)))
 
 	vXData := instructionCode[pc+3 : pc+3+lX]
 	vX, _, err := ReadUintFixed(vXData, len(vXData))
